@@ -659,6 +659,14 @@ func (s *levelsController) subcompact(it y.Iterator, kr keyRange, cd compactDef,
 	// Check overlap of the top level with the levels which are not being
 	// compacted in this compaction.
 	hasOverlap := s.checkOverlap(cd.allTables(), cd.nextLevel.level+1)
+	// An L0->L0 compaction merges only some of the L0 tables: tables that are too big,
+	// too recent or busy in another compaction stay in L0 and may hold older versions
+	// of the keys being compacted here. checkOverlap only looks at the levels below
+	// L0, so it cannot see them. Treat the rest of L0 as overlapping, so that deletion
+	// markers and expired entries are kept and keep shadowing those older versions.
+	if cd.thisLevel.level == 0 && cd.nextLevel.level == 0 {
+		hasOverlap = true
+	}
 
 	// Pick a discard ts, so we can discard versions below this ts. We should
 	// never discard any versions starting from above this timestamp, because
